@@ -9,10 +9,14 @@
 #include <functional>
 #include <map>
 #include <memory>
+#include <new>
 #include <set>
 #include <stdexcept>
 #include <utility>
 #include <sys/uio.h>
+#include <dlfcn.h>
+#include <errno.h>
+#include <stdarg.h>
 
 #include <set>
 #include <unordered_set>
@@ -52,6 +56,28 @@ static std::string comma(const std::vector<std::string> &v) {
     std::string s; for (size_t i = 0; i < v.size(); ++i) { if (i) s += ","; s += v[i]; } return s;
 }
 
+// ---------------------------------------------------------------- allocation faults
+// The global allocation functions are replaced so that the op file can make the next `operator new`
+// inside the code under test throw std::bad_alloc (malloc/free underneath: ASan still checks every access).
+static int g_new_fail = 0;          // > 0: the g_new_fail-th call from now throws
+static bool g_new_hit = false;
+static void *vnew(std::size_t n) {
+    if (g_new_fail > 0 && --g_new_fail == 0) { g_new_hit = true; throw std::bad_alloc(); }
+    void *p = malloc(n ? n : 1);
+    if (!p) throw std::bad_alloc();
+    return p;
+}
+void *operator new(std::size_t n) { return vnew(n); }
+void *operator new[](std::size_t n) { return vnew(n); }
+void *operator new(std::size_t n, const std::nothrow_t &) noexcept { return malloc(n ? n : 1); }
+void *operator new[](std::size_t n, const std::nothrow_t &) noexcept { return malloc(n ? n : 1); }
+void operator delete(void *p) noexcept { free(p); }
+void operator delete[](void *p) noexcept { free(p); }
+void operator delete(void *p, std::size_t) noexcept { free(p); }
+void operator delete[](void *p, std::size_t) noexcept { free(p); }
+void operator delete(void *p, const std::nothrow_t &) noexcept { free(p); }
+void operator delete[](void *p, const std::nothrow_t &) noexcept { free(p); }
+
 // ---------------------------------------------------------------- cabinet
 static const uint64_t kMaxObj = 1000, kMaxBulk = 400000;
 static int g_objs[kMaxObj];                       // object number o <-> &g_objs[o]; 0 <-> nullptr
@@ -79,6 +105,25 @@ static bool cab_line(const std::vector<std::string> &w) {
         } catch (const std::out_of_range &) {
             g_toks.push_back(Token());
             std::cout << "P alloc throw size=" << c.size() << "\nM tok - -\n";
+        }
+    } else if (op == "allocfail" && w.size() == 3 && num(w[2], kMaxObj, a)) {
+        // capacity == size, then the next operator new throws: push_back must grow and fails; with a free
+        // cell alloc() makes no allocation at all and succeeds
+        c.cells_.shrink_to_fit();
+        g_toks.reserve(g_toks.size() + 1);
+        size_t sz0 = c.size();
+        g_new_hit = false; g_new_fail = 1;
+        try {
+            Token t = c.alloc(objp(a));
+            g_new_fail = 0;
+            std::string d = "fresh";
+            for (size_t j = 0; j < g_toks.size(); ++j) if (g_toks[j] == t) { d = "dup=" + std::to_string(j); break; }
+            g_toks.push_back(t);
+            std::cout << "P alloc " << d << " size=" << c.size() << "\nM tok " << t.id() << " " << t.pos() << "\n";
+        } catch (const std::bad_alloc &) {
+            g_new_fail = 0;
+            g_toks.push_back(Token());
+            std::cout << "P alloc bad_alloc size=" << c.size() << (c.size() != sz0 ? " size-changed" : "") << "\nM lastid=" << c.last_id_ << "\n";
         }
     } else if (op == "at" && w.size() == 3 && num(w[2], g_toks.size(), a)) {
         std::cout << "P at=" << objn(c.at(g_toks[a])) << "\n";
@@ -162,6 +207,9 @@ static bool cab_line(const std::vector<std::string> &w) {
                 std::string act = item.substr(colon + 1);
                 if (!num(item.substr(0, colon), 100000, it.k)) return false;
                 if (act == "c") it.kind = 'c';
+                else if (act == "n") it.kind = 'n';
+                else if (act == "s") it.kind = 's';
+                else if (!act.empty() && act[0] == 'r') { it.kind = 'r'; if (!num(act.substr(1), 100000, it.a)) return false; }
                 else if (!act.empty() && act[0] == 'a') { it.kind = 'a'; if (!num(act.substr(1), kMaxObj, it.a)) return false; }
                 else if (!act.empty() && act[0] == 'u') {
                     it.kind = 'u';
@@ -192,6 +240,12 @@ static bool cab_line(const std::vector<std::string> &w) {
                 if (e.kind == 'f') c.free(g_toks[e.a]);
                 else if (e.kind == 'u') c.update(g_toks[e.a], objp(e.b));
                 else if (e.kind == 'c') c.clear();
+                else if (e.kind == 'r') c.reserve(e.a);                 // may move cells_ under the running iteration
+                else if (e.kind == 's') { if (c.empty() != (c.size() == 0)) ++dead; }
+                else if (e.kind == 'n') {                               // a nested iteration sees exactly the live entries
+                    size_t cnt = 0; c.foreach([&](int *) { ++cnt; });
+                    if (cnt != c.size()) ++dead;
+                }
                 else {
                     Token t;
                     try { t = c.alloc(objp(e.a)); } catch (const std::out_of_range &) { t = Token(); }
@@ -226,7 +280,9 @@ static bool cab_line(const std::vector<std::string> &w) {
 struct PNode { bool is_alloc; uint64_t h, v; std::vector<PNode> kids; };
 static void pool_exec(const std::vector<PNode> &nodes);
 
-static uint64_t g_ctor = 0, g_dtor = 0;
+static uint64_t g_ctor = 0, g_dtor = 0, g_thrown = 0;
+static bool g_probe_throw = false;      // the next Probe constructor exits by an exception
+struct ProbeError { };
 static std::set<const void *> g_live_addr;
 static bool g_alias = false;
 struct Probe {
@@ -234,6 +290,7 @@ struct Probe {
     const std::vector<PNode> *dtor_script;
     Probe(uint64_t x, const std::vector<PNode> *ctor_script) : v(x), dtor_script(nullptr) {
         ++g_ctor; pad[0] = pad[1] = pad[2] = ~x;
+        if (g_probe_throw) { g_probe_throw = false; throw ProbeError(); }
         if (!g_live_addr.insert(this).second) g_alias = true;      // storage still in use
         if (ctor_script) pool_exec(*ctor_script);                   // nested calls on the same pool
         if (v != x || pad[1] != ~x) g_alias = true;                 // a nested object was built on top of this one
@@ -301,7 +358,7 @@ static void pool_status() {
     auto st = g_pool->getStat();
     std::cout << "P pool ctor=" << g_ctor << " dtor=" << g_dtor << " vals=" << vals << " stat=" << st.total_alloc_times << "/"
               << st.total_free_times << "/" << st.peak_alloc_number << "/" << st.peak_free_number << " alias=" << (g_alias ? 1 : 0)
-              << " leaked=" << g_leaked << "\n";
+              << " leaked=" << g_leaked << " thrown=" << g_thrown << "\n";
 }
 static void pool_free_all() {
     for (auto &p : g_slot) if (p) { p->dtor_script = nullptr; g_pool->free(p); p = nullptr; }
@@ -313,6 +370,13 @@ static bool pool_line(const std::vector<std::string> &w) {
         if (g_slot[h]) { std::cout << "P busy\n"; return true; }
         g_slot[h] = g_pool->alloc(v, (const std::vector<PNode> *)nullptr);
         pool_status();
+    } else if (op == "allocthrow" && w.size() == 4 && num(w[2], kPoolSlots, h) && num(w[3], 1000000, v)) {
+        if (g_slot[h]) { std::cout << "P busy\n"; return true; }
+        g_probe_throw = true;
+        try { g_slot[h] = g_pool->alloc(v, (const std::vector<PNode> *)nullptr); }
+        catch (const ProbeError &) { ++g_thrown; }
+        g_probe_throw = false;
+        pool_status();
     } else if (op == "free" && w.size() == 3 && num(w[2], kPoolSlots, h)) {
         if (!g_slot[h]) { std::cout << "P none\n"; return true; }
         g_slot[h]->dtor_script = nullptr;
@@ -323,12 +387,12 @@ static bool pool_line(const std::vector<std::string> &w) {
         if (!pool_parse(w, i, prog, 0, true) || i != w.size()) return false;
         pool_exec(prog);
         pool_status();
-    } else if (op == "new" && w.size() == 3 && (w[2] == "max" || num(w[2], 100000, v))) {
+    } else if (op == "new" && w.size() == 3 && (w[2] == "max" || num64(w[2], v))) {
         pool_free_all();
         if (w[2] == "max") g_pool.reset(new tbox::ObjectPool<Probe>());
         else g_pool.reset(new tbox::ObjectPool<Probe>(v));
         pool_status();
-    } else if (op == "drop" && w.size() == 3 && (w[2] == "max" || num(w[2], 100000, v))) {
+    } else if (op == "drop" && w.size() == 3 && (w[2] == "max" || num64(w[2], v))) {
         // ~ObjectPool() with live objects: it must not touch their storage (ASan + the values read by
         // later status lines would show it) and runs no destructor; the objects stay where they are
         for (auto &p : g_slot) if (p) { ++g_leaked; p = nullptr; }
@@ -411,22 +475,100 @@ static bool tok_line(const std::vector<std::string> &w) {
 }
 
 // ---------------------------------------------------------------- Fd
+// System calls of the code under test are interposed (definitions in the executable win over libc /
+// the sanitizer runtime; the real ones are reached through RTLD_NEXT).  While `g_rec` is set — i.e.
+// inside one `fd …` operation — every close / fcntl / read / readv / write / writev is recorded with
+// the LABEL of the descriptor it was made on (`?` = a non-negative number that is not an open
+// descriptor of ours: a dangling use, counted in `stale`), closes are logged at the moment they
+// happen, read/write answers and close/open failures come from the op file.
 static const uint64_t kFdSlots = 8;
 static std::unique_ptr<Fd> g_fd[kFdSlots];
-static int g_pipe[2] = {-1, -1};
 static std::map<int, int> g_fd2res;          // descriptors believed open -> label
 static int g_nres = 0;
 static std::vector<std::string> g_closed;    // closes observed during the current op
+static std::vector<std::string> g_sys;       // other system calls observed during the current op
+static bool g_rec = false;
+static int g_stale = 0;
+static int g_closefail = 0, g_closefail_errno = 0;   // fault schedule for ::close
+static long g_io_ans = 0; static int g_io_errno = 0; // the kernel's answer to the next read/write on an open descriptor
+static bool g_open_emfile = false;
+
+typedef int (*close_t)(int);
+typedef int (*fcntl_t)(int, int, ...);
+typedef int (*open_t)(const char *, int, ...);
+typedef ssize_t (*read_t)(int, void *, size_t);
+typedef ssize_t (*write_t)(int, const void *, size_t);
+typedef ssize_t (*readv_t)(int, const struct iovec *, int);
+static close_t real_close() { static close_t f = (close_t)dlsym(RTLD_NEXT, "close"); return f; }
+static fcntl_t real_fcntl() { static fcntl_t f = (fcntl_t)dlsym(RTLD_NEXT, "fcntl"); return f; }
+static open_t real_open() { static open_t f = (open_t)dlsym(RTLD_NEXT, "open"); return f; }
+static read_t real_read() { static read_t f = (read_t)dlsym(RTLD_NEXT, "read"); return f; }
+static write_t real_write() { static write_t f = (write_t)dlsym(RTLD_NEXT, "write"); return f; }
+static readv_t real_readv() { static readv_t f = (readv_t)dlsym(RTLD_NEXT, "readv"); return f; }
+static readv_t real_writev() { static readv_t f = (readv_t)dlsym(RTLD_NEXT, "writev"); return f; }
+
+static std::string fd_label(int fd) {
+    if (fd < 0) return std::to_string(fd);
+    auto it = g_fd2res.find(fd);
+    if (it == g_fd2res.end()) { ++g_stale; return "?"; }
+    return std::to_string(it->second);
+}
+
+extern "C" int close(int fd) {
+    if (!g_rec) return real_close()(fd);
+    if (fd < 0) return real_close()(fd);
+    auto it = g_fd2res.find(fd);
+    if (it == g_fd2res.end()) {                 // not (or no longer) a descriptor of ours: never really closed
+        ++g_stale; g_closed.push_back("?:r"); errno = EBADF; return -1;
+    }
+    g_closed.push_back(std::to_string(it->second) + ":r");
+    g_fd2res.erase(it);
+    int r = real_close()(fd);
+    if (g_closefail > 0) { --g_closefail; errno = g_closefail_errno; return -1; }     // Linux: the descriptor is gone all the same
+    return r;
+}
+extern "C" int fcntl(int fd, int cmd, ...) {
+    va_list ap; va_start(ap, cmd); long arg = va_arg(ap, long); va_end(ap);
+    if (g_rec) {
+        std::string l = fd_label(fd);
+        if (cmd == F_GETFL) g_sys.push_back("getfl:" + l);
+        else if (cmd == F_SETFL) g_sys.push_back("setfl:" + l + ":" + ((arg & O_NONBLOCK) ? "1" : "0"));
+        else if (cmd == F_GETFD) g_sys.push_back("getfd:" + l);
+        else if (cmd == F_SETFD) g_sys.push_back("setfd:" + l + ":" + ((arg & FD_CLOEXEC) ? "1" : "0"));
+        else g_sys.push_back("fcntl" + std::to_string(cmd) + ":" + l);
+    }
+    return real_fcntl()(fd, cmd, arg);
+}
+extern "C" int open(const char *path, int flags, ...) {
+    mode_t mode = 0;
+    if (flags & O_CREAT) { va_list ap; va_start(ap, flags); mode = (mode_t)va_arg(ap, int); va_end(ap); }
+    if (g_rec && g_open_emfile) { g_open_emfile = false; errno = EMFILE; return -1; }
+    return real_open()(path, flags, mode);
+}
+// read/write on one of our open descriptors: answered from the op file, the descriptor is not touched
+static bool io_scripted(const char *name, int fd, ssize_t &ret) {
+    if (!g_rec) return false;
+    std::string l = fd_label(fd);
+    g_sys.push_back(std::string(name) + ":" + l);
+    if (fd < 0) return false;                                  // the real kernel answers EBADF
+    if (l == "?") { errno = EBADF; ret = -1; return true; }    // dangling: not passed on
+    if (g_io_errno) { errno = g_io_errno; ret = -1; } else ret = g_io_ans;
+    return true;
+}
+extern "C" ssize_t read(int fd, void *p, size_t n) { ssize_t r; return io_scripted("read", fd, r) ? r : real_read()(fd, p, n); }
+extern "C" ssize_t write(int fd, const void *p, size_t n) { ssize_t r; return io_scripted("write", fd, r) ? r : real_write()(fd, p, n); }
+extern "C" ssize_t readv(int fd, const struct iovec *v, int c) { ssize_t r; return io_scripted("readv", fd, r) ? r : real_readv()(fd, v, c); }
+extern "C" ssize_t writev(int fd, const struct iovec *v, int c) { ssize_t r; return io_scripted("writev", fd, r) ? r : real_writev()(fd, v, c); }
 
 static void close_fn(int fd) {
     auto it = g_fd2res.find(fd);
-    if (it == g_fd2res.end()) g_closed.push_back("?:f");          // closed twice / never opened
-    else { g_closed.push_back(std::to_string(it->second) + ":f"); g_fd2res.erase(it); }
-    ::close(fd);
+    if (it == g_fd2res.end()) { g_closed.push_back("?:f"); return; }          // closed twice / never opened: not passed on
+    g_closed.push_back(std::to_string(it->second) + ":f"); g_fd2res.erase(it);
+    real_close()(fd);
 }
-static void fd_scan() {   // descriptors closed behind our back (the ::close path of Fd)
+static void fd_scan() {   // descriptors closed behind the interposer's back (must not happen)
     for (auto it = g_fd2res.begin(); it != g_fd2res.end();) {
-        if (fcntl(it->first, F_GETFD) == -1) { g_closed.push_back(std::to_string(it->second) + ":r"); it = g_fd2res.erase(it); }
+        if (real_fcntl()(it->first, F_GETFD, 0) == -1) { g_closed.push_back(std::to_string(it->second) + ":x"); it = g_fd2res.erase(it); }
         else ++it;
     }
 }
@@ -441,43 +583,91 @@ static void fd_status() {
         nl += g_fd[i]->isNull() ? "1" : "0";
         ref += g_fd[i]->detail_ ? std::to_string(g_fd[i]->detail_->ref_count) : std::string("-");
     }
-    std::set<int> open; for (auto &e : g_fd2res) open.insert(e.second);
-    std::vector<std::string> ov; for (int r : open) ov.push_back(std::to_string(r));
-    std::cout << "P fd g=" << g << " null=" << nl << " closed=" << comma(g_closed) << " open=" << comma(ov) << "\nM ref=" << ref << "\n";
-    g_closed.clear();
+    std::map<int, int> open; for (auto &e : g_fd2res) open[e.second] = e.first;
+    std::vector<std::string> ov, fl;
+    for (auto &e : open) {
+        ov.push_back(std::to_string(e.first));
+        // the kernel's own view of the flags (O_NONBLOCK of the description, FD_CLOEXEC of the descriptor)
+        int sf = real_fcntl()(e.second, F_GETFL, 0), df = real_fcntl()(e.second, F_GETFD, 0);
+        bool nb = sf != -1 && (sf & O_NONBLOCK), cx = df != -1 && (df & FD_CLOEXEC);
+        if (nb || cx) fl.push_back(std::to_string(e.first) + ":" + (nb ? "1" : "0") + (cx ? "1" : "0"));
+    }
+    std::cout << "P fd g=" << g << " null=" << nl << " closed=" << comma(g_closed) << " open=" << comma(ov) << " fl=" << comma(fl)
+              << " stale=" << g_stale << "\nM ref=" << ref << "\nM sys=" << comma(g_sys) << "\n";
+    g_closed.clear(); g_sys.clear(); g_stale = 0;
+}
+// a descriptor with an open file description of its own (dup() would share the O_NONBLOCK flag)
+static int fresh_fd() {
+    int fd = real_open()("/dev/null", O_RDONLY, 0);
+    if (fd < 0) { perror("open /dev/null"); abort(); }
+    return fd;
 }
 static bool fd_line(const std::vector<std::string> &w) {
     uint64_t a = 0, b = 0;
     const std::string &op = w[1];
-    if (op == "new" && w.size() == 3 && num(w[2], kFdSlots, a)) {
-        g_fd[a].reset(); g_fd[a].reset(new Fd());
+    struct Rec { Rec() { g_rec = true; } ~Rec() { g_rec = false; } };
+    std::string ret;
+    if (op == "closefail" && w.size() == 4 && num(w[2], 100, a) && (w[3] == "eintr" || w[3] == "eio")) {
+        g_closefail = (int)a; g_closefail_errno = w[3] == "eintr" ? EINTR : EIO;
+        std::cout << "P ok\n";
+        return true;
+    } else if (op == "new" && w.size() == 3 && num(w[2], kFdSlots, a)) {
+        Rec r; g_fd[a].reset(); g_fd[a].reset(new Fd());
     } else if (op == "openneg" && w.size() == 5 && num(w[2], kFdSlots, a) && num(w[3], 3, b) && (w[4] == "fn" || w[4] == "raw")) {
         // what a failed open()/socket() returned: a record is created, nothing may ever be closed for it
-        g_fd[a].reset();
+        Rec r; g_fd[a].reset();
         if (w[4] == "fn") g_fd[a].reset(new Fd(-(int)(b + 1), close_fn)); else g_fd[a].reset(new Fd(-(int)(b + 1)));
     } else if (op == "open" && w.size() == 4 && num(w[2], kFdSlots, a) && (w[3] == "fn" || w[3] == "raw" || w[3] == "nullfn") && g_nres < 200) {
-        int fd = dup(g_pipe[0]);                  // before the old object dies: no number reuse inside one op
-        if (fd < 0) { perror("dup"); abort(); }
+        int fd = fresh_fd();                      // before the old object dies
         g_fd2res[fd] = g_nres++;
-        g_fd[a].reset();
+        Rec r; g_fd[a].reset();
         if (w[3] == "fn") g_fd[a].reset(new Fd(fd, close_fn));
         else if (w[3] == "nullfn") g_fd[a].reset(new Fd(fd, Fd::CloseFunc()));       // an empty std::function: plain ::close
         else g_fd[a].reset(new Fd(fd));
+    } else if (op == "fopen" && w.size() == 4 && num(w[2], kFdSlots, a) && (w[3] == "enoent" || w[3] == "emfile" || (w[3] == "ok" && g_nres < 200))) {
+        // the real factory: ::open succeeds / fails with ENOENT (really) / with EMFILE (injected)
+        Rec r;
+        g_open_emfile = w[3] == "emfile";
+        Fd tmp = Fd::Open(w[3] == "enoent" ? "/nonexistent-dir-c08/none" : "/dev/null", O_RDONLY);
+        g_open_emfile = false;
+        if (tmp.get() >= 0) g_fd2res[tmp.get()] = g_nres++;
+        g_fd[a].reset(); g_fd[a].reset(new Fd(std::move(tmp)));
+        if (!tmp.isNull() || tmp.get() != -1) g_closed.push_back("moved-from-not-empty");
+    } else if (op == "io" && w.size() == 5 && num(w[2], kFdSlots, a) && (w[3] == "read" || w[3] == "readv" || w[3] == "write" || w[3] == "writev")) {
+        static const std::map<std::string, int> errs = {{"eintr", EINTR}, {"eagain", EAGAIN}, {"eio", EIO}, {"epipe", EPIPE}, {"enospc", ENOSPC}};
+        auto e = errs.find(w[4]);
+        if (e != errs.end()) { g_io_errno = e->second; g_io_ans = -1; }
+        else if (num(w[4], 100000, b)) { g_io_errno = 0; g_io_ans = (long)b; }
+        else return false;
+        char buf[8] = {0}; struct iovec iov = {buf, sizeof(buf)};
+        Rec r; ssize_t x;
+        if (w[3] == "read") x = g_fd[a]->read(buf, sizeof(buf));
+        else if (w[3] == "readv") x = g_fd[a]->readv(&iov, 1);
+        else if (w[3] == "write") x = g_fd[a]->write(buf, sizeof(buf));
+        else x = g_fd[a]->writev(&iov, 1);
+        ret = "P ret=" + std::to_string((long)x) + "\n";
+    } else if (op == "nonblock" && w.size() == 4 && num(w[2], kFdSlots, a) && (w[3] == "0" || w[3] == "1")) {
+        Rec r; g_fd[a]->setNonBlock(w[3] == "1");
+    } else if (op == "isnb" && w.size() == 3 && num(w[2], kFdSlots, a)) {
+        Rec r; ret = std::string("P ret=") + (g_fd[a]->isNonBlock() ? "1" : "0") + "\n";
+    } else if (op == "cloexec" && w.size() == 3 && num(w[2], kFdSlots, a)) {
+        Rec r; g_fd[a]->setCloseOnExec();
     } else if (op == "cpc" && w.size() == 4 && num(w[2], kFdSlots, a) && num(w[3], kFdSlots, b) && a != b) {
-        g_fd[a].reset(); g_fd[a].reset(new Fd(*g_fd[b]));
+        Rec r; g_fd[a].reset(); g_fd[a].reset(new Fd(*g_fd[b]));
     } else if (op == "mvc" && w.size() == 4 && num(w[2], kFdSlots, a) && num(w[3], kFdSlots, b) && a != b) {
-        g_fd[a].reset(); g_fd[a].reset(new Fd(std::move(*g_fd[b])));
+        Rec r; g_fd[a].reset(); g_fd[a].reset(new Fd(std::move(*g_fd[b])));
     } else if (op == "cpa" && w.size() == 4 && num(w[2], kFdSlots, a) && num(w[3], kFdSlots, b)) {
-        *g_fd[a] = *g_fd[b];
+        Rec r; *g_fd[a] = *g_fd[b];
     } else if (op == "mva" && w.size() == 4 && num(w[2], kFdSlots, a) && num(w[3], kFdSlots, b)) {
-        *g_fd[a] = std::move(*g_fd[b]);
+        Rec r; *g_fd[a] = std::move(*g_fd[b]);
     } else if (op == "swap" && w.size() == 4 && num(w[2], kFdSlots, a) && num(w[3], kFdSlots, b)) {
-        g_fd[a]->swap(*g_fd[b]);
+        Rec r; g_fd[a]->swap(*g_fd[b]);
     } else if (op == "reset" && w.size() == 3 && num(w[2], kFdSlots, a)) {
-        g_fd[a]->reset();
+        Rec r; g_fd[a]->reset();
     } else if (op == "close" && w.size() == 3 && num(w[2], kFdSlots, a)) {
-        g_fd[a]->close();
+        Rec r; g_fd[a]->close();
     } else return false;
+    std::cout << ret;
     fd_status();
     return true;
 }
@@ -556,11 +746,13 @@ static void reinit() {
     g_cab.reset(new Cabinet<int>()); g_toks.clear();
     if (g_pool) pool_free_all();
     g_pool.reset(new tbox::ObjectPool<Probe>());
-    g_ctor = g_dtor = 0; g_alias = false; g_live_addr.clear(); g_leaked = 0;
+    g_ctor = g_dtor = 0; g_thrown = 0; g_probe_throw = false; g_alias = false; g_live_addr.clear(); g_leaked = 0;
+    g_rec = true;                                       // keep the descriptor table exact while the old handles die
     for (auto &f : g_fd) f.reset();
     for (auto &f : g_fd) f.reset(new Fd());
-    for (auto &e : g_fd2res) ::close(e.first);          // leaked by the case before
-    g_fd2res.clear(); g_closed.clear(); g_nres = 0;
+    g_rec = false;
+    for (auto &e : g_fd2res) real_close()(e.first);     // leaked by the case before
+    g_fd2res.clear(); g_closed.clear(); g_sys.clear(); g_nres = 0; g_stale = 0; g_closefail = 0; g_open_emfile = false;
     for (auto &x : g_w) x.reset();
     for (auto &x : g_t) x.reset();
     for (auto &x : g_w) x.reset(new Watcher());
@@ -568,7 +760,6 @@ static void reinit() {
 }
 
 int main() {
-    if (pipe(g_pipe) != 0) { perror("pipe"); return 2; }
     std::string line;
     reinit();
     while (std::getline(std::cin, line)) {
@@ -587,7 +778,9 @@ int main() {
     }
     // release everything while the bookkeeping (g_fd2res, g_live_addr) is still alive: the close
     // function and the probe destructor must not run during static destruction
+    g_rec = true;
     for (auto &f : g_fd) f.reset();
+    g_rec = false;
     for (auto &x : g_w) x.reset();
     for (auto &x : g_t) x.reset();
     pool_free_all(); g_pool.reset(); g_cab.reset();
